@@ -1466,10 +1466,13 @@ class SpaceManager(SharedSpaceOperations):
                 if self.get_deriv_bases(c, defined_only=True)[0] is not cells:
                     continue   # Skip when c derives from an overriding sub
             space.clear_subs_rootitems()
-            space.cells[cells.name].on_set_property(
-                flags, define, func, enable_cache
-            )
-            define = False  # Do not define derived cells
+            if c is cells:
+                c.on_set_property(flags, define, func, enable_cache)
+            else:
+                # Derive all the properties: cells may have just become
+                # the nearest defined base of c by being defined
+                c.on_inherit(
+                    self, self.get_deriv_bases(c, defined_only=True))
 
     def set_cells_formula(self, cells, func):
         self.set_cells_property(cells, UserCellsImpl.PROP_FORMULA, func, True)
